@@ -1,7 +1,7 @@
 import DuneVerif.Common.Proto
 import DuneVerif.Model.C13
 /-! line-protocol driver for C13 (format: see harness/mpi_c13.cc)
-    `np=<P> num=<d|c|s> ord=<a|f> del=<m|r> [re=<0|s|d>] : <g>=<rank><o|v|c><k|d|a|n>,...;...`  -/
+    `np=<P> num=<d|c|s|l> ord=<a|f> del=<m|r> [re=<0|s|d>] : <g>=<rank><o|v|c><k|d|a|n>,...;...`  -/
 open DV DV.C13
 
 structure Tok where
@@ -44,53 +44,74 @@ def insSorted (x : Int × Nat) : List (Int × Nat) → List (Int × Nat)
   | y :: ys => if y.1 < x.1 then y :: insSorted x ys else x :: y :: ys
 
 def locStr (hide : Bool) (l : Nat) : String :=
-  if l = 2 ^ 64 - 1 then "M" else if hide ∧ l ≥ 2000 then "S" else toString l
+  if hide then "S" else if l = 2 ^ 64 - 1 then "M" else toString l
 
-/-- `post`: after a sync (prints the in-sync flag); `calls`: the call counter of the numberer object (num=s only) -/
-def showRank (hide : Bool) (post : Bool) (calls : Option Nat) (st : RankState) : String :=
-  let idx := "I[" ++ ",".intercalate (st.idx.map fun e => toString e.g ++ attrStr e.attr ++ ":" ++ locStr hide e.loc) ++ "]"
+abbrev NumState := (List Nat × Nat) × Nat   -- ((free list, next fresh number), calls)
+
+/-- `assigned`: the global indices whose local number came from a numberer object with state (printed as S: which
+index gets which number depends on the processing order); `post`: after a sync (prints the in-sync flag and, for a
+numberer object, its calls, the length of its free list and its next fresh number) -/
+def showRank (assigned : List Int) (post : Bool) (ns : Option NumState) (st : RankState) : String :=
+  let idx := "I[" ++ ",".intercalate (st.idx.map fun e =>
+    toString e.g ++ attrStr e.attr ++ ":" ++ locStr (assigned.contains e.g) e.loc) ++ "]"
   let nbs := st.remote.map fun x =>
     " N" ++ toString x.1 ++ "[" ++ ",".intercalate (x.2.map fun en =>
       match resolve st.idx en with
       | some k => toString en.g ++ attrStr en.own ++ attrStr en.rem ++ "@" ++ toString k
       | none => "?" ++ attrStr en.rem) ++ "]"
   idx ++ String.join nbs ++ (if post then " S" ++ (if isSynced st then "1" else "0") else "") ++
-    (match calls with
-     | some k => if post then " K" ++ toString k else ""
+    (match ns with
+     | some s => if post then " K" ++ toString s.2 ++ " F" ++ toString s.1.1.length ++ " X" ++ toString s.1.2 else ""
      | none => "")
 
-/-- one sync of all ranks: pure numbering, or the counting numberer object of every rank (state = calls so far) -/
-def syncStep (num : Option (Int → Nat)) (w : World) (cs : List Nat) : World × List Nat :=
+/-- one sync of all ranks: pure numbering, or the numberer object of every rank -/
+def syncStep (num : Option (Int → Nat)) (w : World) (ns : List NumState) : World × List NumState :=
   match num with
-  | some f => (sync f w, cs)
+  | some f => (sync f w, ns)
   | none =>
-    let r := syncS (countingNumberer 2000) w cs
+    let r := syncS (counted slotNumberer) w ns
     (r.map (·.1), r.map (·.2))
 
-def run (np : Nat) (numKind : String) (fixed : Bool) (re : String) (toks : List Tok) : String :=
+def newGlobals (before after : RankState) : List Int :=
+  (after.idx.filter fun e => !hasKey before.idx e.g e.attr).map (·.g)
+
+def run (np : Nat) (numKind : String) (re : String) (toks : List Tok) : String :=
   let base : Decomp := (List.range np).map fun p =>
     (toks.filter fun t => t.rank = p ∧ (t.st = 'k' ∨ t.st = 'd')).foldl (fun acc t => insSorted (t.g, t.attr) acc) []
   let del : Nat → Int → Bool := fun p g => toks.any fun t => t.rank = p ∧ t.g = g ∧ t.st = 'd'
-  let w1 := deleteCopies del (consistent base)
+  let w0 := consistent base
+  let w1 := deleteCopies del w0
   let w2 := (toks.filter fun t => t.st = 'a').foldl (fun w t =>
       let known := (toks.filter fun u => u.g = t.g ∧ u.rank ≠ t.rank).map fun u => (u.rank, u.attr)
       addCopyAt w t.rank t.g t.attr (500 + t.g).toNat known) w1
   let num : Option (Int → Nat) :=
     if numKind = "c" then some (fun g => (1000 + g).toNat) else if numKind = "d" then some (fun _ => 2 ^ 64 - 1) else none
-  let hide := numKind = "s"
-  let cs0 := List.replicate np 0
-  let r1 := syncStep num w2 cs0
-  let callsOf (cs : List Nat) (p : Nat) : Option Nat := if numKind = "s" then some (cs.getD p 0) else none
-  let showW (tag : String) (post : Bool) (w : World) (cs : List Nat) : List String :=
-    w.mapIdx fun p st => tag ++ "(" ++ showRank hide post (callsOf cs p) st ++ ")"
-  let a := showW "A" false w2 cs0
-  let b := showW "B" true r1.1 r1.2
+  let stateful := numKind = "s" ∨ numKind = "l"
+  -- the numberer objects: a counter from 2000, or the free list of the slots of the deleted copies, then 3000, ...
+  let ns0 : List NumState := (List.range np).map fun p =>
+    if numKind = "l" then ((((w0.getD p ⟨[], [], 0, 0⟩).idx.filter fun e => del p e.g).map (·.loc), 3000), 0)
+    else (([], 2000), 0)
+  let r1 := syncStep num w2 ns0
+  let nsOf (ns : List NumState) (p : Nat) : Option NumState := if stateful then some (ns.getD p (([], 0), 0)) else none
+  let emptySt : RankState := ⟨[], [], 0, 0⟩
+  let asg1 : List (List Int) := (List.range np).map fun p =>
+    if stateful then newGlobals (w2.getD p emptySt) (r1.1.getD p emptySt) else []
+  let a := w2.mapIdx fun p st => "A(" ++ showRank [] false none st ++ ")"
+  let b := r1.1.mapIdx fun p st => "B(" ++ showRank (asg1.getD p []) true (nsOf r1.2 p) st ++ ")"
   let c : List String :=
     if re = "0" then List.replicate np ""
     else
       let w3 := if re = "d" then deleteCopies del r1.1 else r1.1
-      let r2 := syncStep num w3 r1.2
-      (showW "C" true r2.1 r2.2).map (" " ++ ·)
+      -- the free-list numberer gets the slots of the copies that are deleted again
+      let ns3 : List NumState := r1.2.mapIdx fun p s =>
+        if re = "d" ∧ numKind = "l" then
+          ((s.1.1 ++ ((r1.1.getD p emptySt).idx.filter fun e => del p e.g).map (·.loc), s.1.2), s.2)
+        else s
+      let asg3 : List (List Int) := asg1.mapIdx fun p l => if re = "d" then l.filter (fun g => !del p g) else l
+      let r2 := syncStep num w3 ns3
+      r2.1.mapIdx fun p st =>
+        let asg := asg3.getD p [] ++ (if stateful then newGlobals (w3.getD p emptySt) st else [])
+        " C(" ++ showRank asg true (nsOf r2.2 p) st ++ ")"
   " ".intercalate ((List.range np).map fun p =>
     "r" ++ toString p ++ "{" ++ a.getD p "" ++ " " ++ b.getD p "" ++ c.getD p "" ++ "}")
 
@@ -111,14 +132,14 @@ def handle (line : String) : String :=
       | none => "bad-op"
       | some np =>
         if np < 1 ∨ np > 64 then "bad-op" else
-        if !(num = "num=d" ∨ num = "num=c" ∨ num = "num=s") ∨ !(ord = "ord=a" ∨ ord = "ord=f") ∨ !(del = "del=m" ∨ del = "del=r") then "bad-op" else
+        if !(num = "num=d" ∨ num = "num=c" ∨ num = "num=s" ∨ num = "num=l") ∨ !(ord = "ord=a" ∨ ord = "ord=f") ∨ !(del = "del=m" ∨ del = "del=r") then "bad-op" else
         if ord = "ord=f" ∧ num = "num=d" then "bad-op" else
         let segs := (body.splitOn ";").map (fun s => String.ofList (s.toList.filter (· ≠ ' '))) |>.filter (· ≠ "")
         match segs.mapM (parseSeg? np) with
         | none => "bad-op"
         | some tss =>
           if !((tss.filterMap fun ts => ts.head?.map (·.g)).Nodup) then "bad-op" else
-          run np (num.drop 4).toString (ord = "ord=f") re tss.flatten
+          run np (num.drop 4).toString re tss.flatten
     | _, _ => "bad-op"
   | _ => "bad-op"
 
